@@ -385,8 +385,16 @@ func (g *Gen) leaf() []interface{} {
 	f := g.leafField()
 	k := g.r.Intn(100)
 	switch {
-	case k < 8:
+	case k < 6:
 		return []interface{}{"un", "exists", B(f), []interface{}{"none"}}
+	case k < 8: // the derived builders
+		name := []string{"notexists", "isnil", "istrue", "isfalse", "isnilornotexists"}[g.r.Intn(5)]
+		if name == "istrue" || name == "isfalse" {
+			f = g.pick([]string{"b", f})
+		}
+		return []interface{}{"sugar", name, B(f), []interface{}{"none"}}
+	case k < 12:
+		return []interface{}{"sugar", "neq", B(f), g.operand(f)}
 	case k < 30:
 		return []interface{}{"un", "eq", B(f), g.operand(f)}
 	case k < 62:
